@@ -7,7 +7,7 @@ CHECKS="${@:-$ID}"
 M=/var/tmp/mut-$S
 rm -rf $M; mkdir -p $M
 for d in src bindings util man doc; do cp -a /repo/$d $M/$d; done
-( cd $M && patch -p1 -s --no-backup-if-mismatch < /verif/seeded/$S/patch.diff ) || { echo "$S: patch failed"; exit 2; }
+( cd $M && patch -p1 -s --no-backup-if-mismatch < $( [ -f /verif/seeded/$S/patch.ported.diff ] && echo /verif/seeded/$S/patch.ported.diff || echo /verif/seeded/$S/patch.diff ) ) || { echo "$S: patch failed"; exit 2; }
 for c in $CHECKS; do
   out=$(cd /verif && VERIF_REPO=$M timeout 1500 python3 checks/$c.py 2>&1); rc=$?
   echo "== seeded/$S check $c: exit $rc"
